@@ -146,6 +146,16 @@ def analyse(unit, g, vr):
     for d in vr['diags']:
         cls, kind = runverus.classify(d)
         if cls in ('warning', 'note'):
+            # "not all errors may have been reported": the function fails and Verus stopped looking for further failing
+            # clauses - its other clauses are unverified in this run
+            if 'not all errors may have been reported' in (d.get('message') or ''):
+                for sp in d.get('spans', []):
+                    so = origin(sp['line_start'])
+                    fl = containing_fn(idx, so['file'], so['line']) if so.get('k') == 'src' else so.get('contract')
+                    if fl:
+                        undecided.append({'msg': 'partial: %s fails and not all of its failed obligations were reported' % fl,
+                                          'fn': fl, 'partial': True})
+                        break
             continue
         spans = d.get('spans', [])
         prim = [s for s in spans if s.get('is_primary')]
@@ -474,8 +484,11 @@ def run_check(pid, tier, seed, scratch, t0):
         # undecided diagnostics: those attributed to a function only concern that function's properties
         for u in r['undecided']:
             if isinstance(u, dict):
+                if u.get('partial') and any(f['fn'] == u['fn'] for f in all_fail):
+                    continue    # this property already has a failed obligation of that function: it is decided
                 if u['fn'] is None or u['fn'] in relevant:
-                    undecided.append(u['msg'])
+                    if u['msg'] not in undecided:
+                        undecided.append(u['msg'])
             else:
                 undecided.append(u)
         if g.lost_anchors:
